@@ -169,6 +169,16 @@ func (f *frame) canInline(callee *ssa.Function) bool {
 	if f.c.eng.noInline[callee.String()] {
 		return false
 	}
+	// inside very large functions only tiny helpers are inlined (query size)
+	if len(f.stack) > 0 && len(f.stack[0].Blocks) > 80 {
+		if len(callee.Blocks) > 8 || f.depth >= 2 {
+			return false
+		}
+	}
+	f.c.inlinedBlocks += len(callee.Blocks)
+	if f.c.inlinedBlocks > 3000 {
+		return false
+	}
 	// no loops in inlined bodies unless small
 	for _, b := range callee.Blocks {
 		for _, s := range b.Succs {
@@ -347,14 +357,14 @@ func (f *frame) callHavocRes(x ssa.CallInstruction, callee *ssa.Function, st Sta
 	}
 	var keep func(string) bool
 	if !ms.top {
-		if len(ms.m) == 0 {
+		if len(ms.m) == 0 && len(ms.pats) == 0 {
 			keep = func(string) bool { return true }
 		} else {
-			keep = func(n string) bool { return !ms.m[n] }
+			keep = func(n string) bool { return !ms.has(n) }
 		}
 	}
 	nh := st.heap
-	if keep == nil || len(ms.m) > 0 {
+	if keep == nil || len(ms.m) > 0 || len(ms.pats) > 0 {
 		nh = c.heapHavoc(st.heap, "call_"+sanitize(name), keep)
 		nh = c.restoreGlobals(st.heap, nh, ms)
 		nh = f.restoreLocals(st.heap, nh)
@@ -365,7 +375,7 @@ func (f *frame) callHavocRes(x ssa.CallInstruction, callee *ssa.Function, st Sta
 	var res Val
 	// deterministic result for callees with empty mod-set: uninterpreted function of
 	// the arguments (scalar results only) and of a heap token
-	if callee != nil && !ms.top && len(ms.m) == 0 && args != nil && c.eng.detResult(callee) {
+	if callee != nil && !ms.top && len(ms.m) == 0 && len(ms.pats) == 0 && args != nil && c.eng.detResult(callee) {
 		res = c.ufResult(callee, args, resT, reach, st, na)
 	} else {
 		res = c.freshVal("ret_"+sanitize(name), resT, reach, na)
